@@ -42,7 +42,7 @@ Inductive case :=
 (* scaled reference points against the exact rational model, |difference| <= 1e-12 *)
 | CRefQ (nobj p : nat) (scaling : Q) (obs : list (list Q))
 (* best/worst point memory over a sequence of selNSGA3WithMemory calls *)
-| CMem (calls : list (list (list Z))) (obs : list (list Z * list Z))
+| CMem (calls : list (list (list Z))) (obs : list (list Z * list Z * list (list Z)))
 (* one selNSGA3 call: best_point / worst_point / front_worst from the previous memory and the fitnesses *)
 | CPoints (prev_best prev_worst : option (list Z)) (fits : list (list Z)) (obs_best obs_worst obs_front_worst : list Z)
 (* find_extreme_points on integer-valued fitnesses *)
@@ -115,7 +115,8 @@ Definition check (c : case) : bool :=
                             && forallb (fun xy => q_close (1 # 1000000000000) (fst xy) (snd xy)) (zip (fst rr) (snd rr)))
                  (zip m obs)
   | CMem calls obs =>
-      list_eqb (fun a b => zl_eqb (fst a) (fst b) && zl_eqb (snd a) (snd b)) (memory_trace None None calls) obs
+      list_eqb (fun a b => zl_eqb (fst (fst a)) (fst (fst b)) && zl_eqb (snd (fst a)) (snd (fst b)) && list_eqb zl_eqb (snd a) (snd b))
+               (memory_trace None None None calls) obs
   | CPoints pb pw fits ob ow ofw =>
       zl_eqb (update_best pb fits) ob && zl_eqb (update_worst pw fits) ow && zl_eqb (update_worst None fits) ofw
   | CExtreme fits best prev obs => list_eqb zl_eqb (find_extreme_points fits best prev) obs
